@@ -2321,6 +2321,44 @@ func genGlue() string {
 		sb.WriteString("\n/-- modules/caddyhttp/autohttps.go automaticHTTPSPhase1: the left-hand sides of the assignments that store\n    through the host matcher `hm` it walks (`hm, ok := m.(*MatchHost)` itself is a definition, not a store) -/\n")
 		sb.WriteString("def autoHTTPSHostMatcherStores : List String := " + leanStrList(stores) + "\n")
 	}
+
+	// C18: the replacer calls of the files where configuration fields are expanded when a module is PROVISIONED
+	// (and, for the host matcher, again per request)
+	{
+		var rows []string
+		for _, rel := range []string{"modules/caddyhttp/autohttps.go", "modules/caddyhttp/matchers.go", "modules/caddyhttp/caddyauth/basicauth.go", "modules/caddyhttp/app.go"} {
+			_, f := parseFile(rel)
+			if f == nil {
+				continue
+			}
+			for _, d := range f.Decls {
+				fd, ok := d.(*ast.FuncDecl)
+				if !ok || fd.Body == nil {
+					continue
+				}
+				ast.Inspect(fd.Body, func(x ast.Node) bool {
+					ce, ok := x.(*ast.CallExpr)
+					if !ok {
+						return true
+					}
+					se, ok := ce.Fun.(*ast.SelectorExpr)
+					if !ok || len(ce.Args) == 0 {
+						return true
+					}
+					switch se.Sel.Name {
+					case "ReplaceAll", "ReplaceKnown", "ReplaceOrErr", "ReplaceFunc":
+						if id, ok := se.X.(*ast.Ident); ok && (id.Name == "strings" || id.Name == "bytes") {
+							return true
+						}
+						rows = append(rows, "("+leanStr(filepath.Base(rel))+", "+leanStr(fd.Name.Name)+", "+leanStr(se.Sel.Name)+", "+leanStr(exprText(ce.Args[0]))+")")
+					}
+					return true
+				})
+			}
+		}
+		sb.WriteString("\n/-- every Replacer.Replace* call of autohttps.go, matchers.go, caddyauth/basicauth.go and app.go (modules/caddyhttp),\n    in source order: (file, function, method, first argument) -/\n")
+		sb.WriteString("def provisionReplacerCallSites : List (String × String × String × String) := [\n  " + strings.Join(rows, ",\n  ") + "\n]\n")
+	}
 	sb.WriteString(footer)
 	return sb.String()
 }
